@@ -46,10 +46,12 @@ META["C03"] = {
 }
 META["C05"] = {
     "level": "Exhaustive structural rules over the AxCut traversal traits, must-dataflow for the free-variable annotations, dominator "
-             "rule free_vars-before-linearize, wildcard reachability for Statement::linearize.",
+             "rule free_vars-before-linearize, wildcard reachability for Statement::linearize, and R-LINSUBST: linearize of Call/Invoke/Let "
+             "abstractly interpreted over every small aliasing pattern of arguments and context, checking that the explicit "
+             "substitution is injective on what stays live (no two live variables renamed to one name).",
     "design_ref": "DESIGN.md §3 R-TRAV/R-ANNOT/R-WIRE/R-SHAPE (+R-KEEP/R-PUSH), §4 C05",
     "note": "Partial: exactness of environments on every path is not decided.",
-    "technique": "static analysis: field provenance, forward must-dataflow on MIR CFG, dominators",
+    "technique": "static analysis: field provenance, forward must-dataflow on MIR CFG, dominators, abstract interpretation of linearize over finite alias patterns",
 }
 META["C12"] = {
     "level": "Panic-site closure of the post-check pipeline with the annotation and shape classes discharged by checked typestate / "
@@ -72,7 +74,8 @@ META["C02"] = {
 META["C04"] = {
     "level": "Decision tables folded by abstract interpretation of MIR (chirality collapse), wildcard reachability by decision-region "
              "enumeration (18 shapes), collection-provenance rules for lifted definitions and eta-expansions; all site populations "
-             "finite and enumerated completely. No test exercises core2axcut at all.",
+             "finite and enumerated completely; R-IDCMP: no decision in the translation compares the numeric id of a name without its "
+             "text (constructor/type names are identified by name). No test exercises core2axcut at all.",
     "design_ref": "DESIGN.md §4 C04 (R-SHAPE, R-SAMESRC, R-DECLSRC, chirality table), §3 R-ENUM/R-FRESH",
     "note": "Partial: the right-hand side of each cut shape (which AxCut statement it becomes) is not decided.",
     "technique": "static analysis: abstract interpretation of MIR over finite domains, decision-region path enumeration, collection provenance",
@@ -90,7 +93,8 @@ META["C19"] = {
 META["C06"] = {
     "level": "Translation validation of the x86-64 instruction-selection templates, statically: emission functions are abstractly "
              "interpreted (MIR facts) into instruction lists for every reachable placement class, and each list is checked on a "
-             "symbolic machine against the AxCut step it implements. Golden tests pin text for 8 programs with everything in "
+             "symbolic machine against the AxCut step it implements; the print call sites (R-ABI) and the parallel-move guard "
+             "(R-CYCLE: scratch register / reserved slot exactness over all small move trees) of this backend are included. Golden tests pin text for 8 programs with everything in "
              "registers; spill arms, rdx/rax special cases and large literals are covered here.",
     "design_ref": "DESIGN.md §4 C06-C08 (R-ENUM backend segment, R-SPILL realised as symbolic template validation), §3 R-IMM",
     "note": "Narrow: arithmetic, comparison, move and literal templates plus dispatch tables. Heap operations, closures, jump tables "
@@ -100,7 +104,8 @@ META["C06"] = {
 META["C07"] = {
     "level": "Translation validation of the AArch64 instruction-selection templates, statically: emission functions are abstractly "
              "interpreted (MIR facts) into instruction lists for every reachable placement class, and each list is checked on a "
-             "symbolic machine against the AxCut step it implements. Golden tests pin text for 8 programs with everything in "
+             "symbolic machine against the AxCut step it implements; the print call sites (R-ABI) and the parallel-move guard "
+             "(R-CYCLE: scratch register / reserved slot exactness over all small move trees) of this backend are included. Golden tests pin text for 8 programs with everything in "
              "registers; spill arms, rdx/rax special cases and large literals are covered here.",
     "design_ref": "DESIGN.md §4 C06-C08 (R-ENUM backend segment, R-SPILL realised as symbolic template validation), §3 R-IMM",
     "note": "Narrow: arithmetic, comparison, move and literal templates plus dispatch tables. Heap operations, closures, jump tables "
@@ -110,7 +115,8 @@ META["C07"] = {
 META["C08"] = {
     "level": "Translation validation of the RISC-V instruction-selection templates, statically: emission functions are abstractly "
              "interpreted (MIR facts) into instruction lists for every reachable placement class, and each list is checked on a "
-             "symbolic machine against the AxCut step it implements. Golden tests pin text for 8 programs with everything in "
+             "symbolic machine against the AxCut step it implements; the print call sites (R-ABI) and the parallel-move guard "
+             "(R-CYCLE: scratch register / reserved slot exactness over all small move trees) of this backend are included. Golden tests pin text for 8 programs with everything in "
              "registers; spill arms, rdx/rax special cases and large literals are covered here.",
     "design_ref": "DESIGN.md §4 C06-C08 (R-ENUM backend segment, R-SPILL realised as symbolic template validation), §3 R-IMM",
     "note": "Narrow: arithmetic, comparison, move and literal templates plus dispatch tables. Heap operations, closures, jump tables "
